@@ -609,6 +609,9 @@ def run_readback(c, ctx):
             vx=pr["vel"][0] + rel[3], vy=pr["vel"][1] + rel[4], vz=pr["vel"][2] + rel[5])
     p = sim.particles[1]
     prim = sim.particles[0]
+    if (p.x, p.y, p.z) == (prim.x, prim.y, prim.z):
+        ctx.skip("separation_absorbed")      # |r| below the spacing of doubles at the primary's position
+        return
     try:
         o = p.orbit(primary=prim)
     except ValueError as ex:
@@ -683,7 +686,10 @@ def run_readback(c, ctx):
         tol[k_] = K * EPS * (cd[k_] + se)
     # angles from cosines
     def dl(k_):
-        return K * EPS * (cd[k_] + 1.0)
+        # the eccentricity vector ((v^2 - mu/d) r - (r.v) v)/mu carries the rounding of its two terms: K eps se; its
+        # direction (omega, pomega) that divided by e
+        extra = se / max(er, 1e-300) if k_ in ("omega", "pomega_planar") else 0.0
+        return K * EPS * (cd[k_] + 1.0 + extra)
     t_inc = amp(r["inc"], dl("inc"))
     t_Om = amp(r["Omega"], dl("Omega"))
     t_om = amp(r["omega"], dl("omega"))
@@ -883,6 +889,10 @@ def run_readback(c, ctx):
         bp_, bv_ = budget(name, kw)
         tp = fwd_p + 2 * bp_          # factor 2: one-at-a-time perturbations are not a bound for joint ones
         tv = fwd_v + 2 * bv_
+        if tp > 1e-3 * d_ or tv > 1e-3 * v_:
+            # the elements are so ill-conditioned here that the linearised budget says nothing
+            ctx.skip("roundtrip_ill_conditioned")
+            continue
         if not (math.isfinite(tp) and math.isfinite(tv)):
             ctx.skip("roundtrip_tol_inf")
             continue
